@@ -161,7 +161,8 @@ func runE1Case(r *verifkit.Run, pf e1Profile, id string, rng *rand.Rand) map[str
 	steps := pf.steps[0] + rng.IntN(pf.steps[1])
 	alive := true
 	for s := 0; s < steps && alive; s++ {
-		if rng.IntN(100) < pf.restartPct {
+		if rng.IntN(100) < pf.restartPct || g.wantRestart {
+			g.wantRestart = false
 			n.stop()
 			mo.c11consume(n.takeGossip(), n.takeSM())
 			mo.c11.reset()
